@@ -611,6 +611,84 @@ def rule_r8(chk, p, t):
         r.ok("package", f"{n_fn} functions scanned: no run-time assignment to class-level or module-level state of dynamics.* / physics.*")
 
 
+_DYNAMICS_FIELDS = {
+    # configuration fields that parameterise the truth propagation (C10.R5 lists the sections) - per config class
+    "TimeConfig": {"physics_step_sec", "start_timestamp", "stop_timestamp"},
+    "PropagationConfig": {"propagation_model", "integration_method", "station_keeping", "target_realtime_propagation", "sensor_realtime_propagation"},
+    "GeopotentialConfig": {"model", "degree", "order"},
+    "PerturbationsConfig": {"third_bodies", "solar_radiation_pressure", "general_relativity"},
+}
+_CONFIG_SELFTEST = """
+class TimeConfig:
+    def output_on_physics_steps(self):
+        if self.output_step_sec < self.physics_step_sec:
+            self.physics_step_sec = self.output_step_sec
+        return self
+"""
+
+
+def _config_field_writes(cls_node, fields):
+    """[(method name, field, value expr, node)] for assignments to self.<field> / values["<field>"] inside methods."""
+    out = []
+    for m in cls_node.body:
+        if not isinstance(m, (ast.FunctionDef, ast.AsyncFunctionDef)):
+            continue
+        for n in ast.walk(m):
+            tgs, val = [], None
+            if isinstance(n, ast.Assign):
+                tgs, val = n.targets, n.value
+            elif isinstance(n, (ast.AugAssign, ast.AnnAssign)) and getattr(n, "value", None) is not None:
+                tgs, val = [n.target], n.value
+            for tg in tgs:
+                if isinstance(tg, ast.Attribute) and tg.attr in fields and isinstance(tg.value, ast.Name) and tg.value.id in ("self", "cls", "values", "data", "model"):
+                    out.append((m.name, tg.attr, val, n))
+                if isinstance(tg, ast.Subscript) and isinstance(tg.slice, ast.Constant) and tg.slice.value in fields:
+                    out.append((m.name, tg.slice.value, val, n))
+            if isinstance(n, ast.Call) and call_name(n) in ("setattr", "__setattr__") and len(n.args) >= 3 and isinstance(n.args[-2], ast.Constant) and n.args[-2].value in fields:
+                out.append((m.name, n.args[-2].value, n.args[-1], n))
+    return out
+
+
+def rule_r9(chk, p, t):
+    r = chk.rule(
+        "C10.R9",
+        "the configured propagation parameters are what the user wrote: no validator derives them from other settings",
+        4,
+        "the physics step, the propagation model, the geopotential degree / order and the perturbation switches reach the "
+        "truth dynamics as configuration fields (R5).  A validator or method of their configuration class that assigns one "
+        "of them from *another* field (`if output_step_sec < physics_step_sec: physics_step_sec = output_step_sec`) lets a "
+        "reporting or estimation setting decide how the truth is integrated: two scenarios with the same dynamics, agents "
+        "and initial states then produce different trajectories.  Every write of such a field inside its class may depend "
+        "on that field only (normalisation of its own value)",
+        "what pydantic itself does with the raw input",
+    )
+    n_cls = 0
+    for mod in sorted(p.modules.values(), key=lambda m: m.name):
+        if not mod.name.startswith("resonaate.scenario.config"):
+            continue
+        for ci in mod.classes.values():
+            fields = _DYNAMICS_FIELDS.get(ci.name)
+            if not fields:
+                continue
+            n_cls += 1
+            bad = []
+            for mname, fld, val, node in _config_field_writes(ci.node, fields):
+                reads = {x.attr for x in ast.walk(val) if isinstance(x, ast.Attribute) and isinstance(x.value, ast.Name) and x.value.id in ("self", "cls", "values", "data", "model")} | {x.slice.value for x in ast.walk(val) if isinstance(x, ast.Subscript) and isinstance(x.slice, ast.Constant) and isinstance(x.slice.value, str)}
+                other = sorted(reads - {fld})
+                if other:
+                    bad.append((mname, fld, other, node))
+            if bad:
+                mname, fld, other, node = bad[0]
+                r.violation(ci.qualname, f"derived-dynamics-setting:{fld}<-{','.join(other)}", f"{ci.name}.{mname} sets `{fld}` from {other}: a setting that does not belong to the dynamics decides how the truth is propagated", f"{mod.relpath}:{node.lineno}")
+            else:
+                r.ok(ci.qualname, f"fields {sorted(fields)} are never derived from other settings", ci.loc())
+    if n_cls < 4:
+        r.error("config-classes", f"only {n_cls} of the propagation configuration classes found")
+    tree = ast.parse(_CONFIG_SELFTEST)
+    if len(_config_field_writes(tree.body[0], _DYNAMICS_FIELDS["TimeConfig"])) != 1:
+        r.error("selftest", "the embedded positive example is not recognised")
+
+
 def run(chk, p, t):
     chk.explanation = (
         "Static non-interference analysis for C10: (R1) an enumerated, closed set of writers of truth state and of "
@@ -623,7 +701,7 @@ def run(chk, p, t):
         "splitting keep no state. NOT decided: bit-for-bit determinism of SciPy and of Ray serialisation."
     )
     chk.assumptions += ["ray.put / ray.get are a deep-copy boundary", "dynamicsFactory returns a fresh object per call (no caching; checked: it constructs TwoBody / SpecialPerturbations / Terrestrial)"]
-    steps = [("C10.R1", rule_r1), ("C10.R2", rule_r2), ("C10.R3", rule_r3), ("C10.R4", rule_r4_r5), ("C10.R6", rule_r6), ("C10.R7", rule_r7), ("C10.R8", rule_r8)]
+    steps = [("C10.R1", rule_r1), ("C10.R2", rule_r2), ("C10.R3", rule_r3), ("C10.R4", rule_r4_r5), ("C10.R6", rule_r6), ("C10.R7", rule_r7), ("C10.R8", rule_r8), ("C10.R9", rule_r9)]
     for rid, fn in steps:
         if chk.only_rule is not None and chk.only_rule != rid and not (chk.only_rule == "C10.R5" and rid == "C10.R4"):
             continue
